@@ -22,7 +22,8 @@ def pool_fee(protocol, swap, burn, extra=()):
 
 # fee configurations of the worlds whose fees are concrete (the swap-accounting obligations of C03/C04/C13 use fully symbolic fees instead):
 # the quick tier takes the one selected by VERIF_SEED, the thorough tier all of them
-FEE_OPTIONS = [(10 ** 15, 2 * 10 ** 15, 0, ()), (10 ** 15, 2 * 10 ** 15, 10 ** 15, (10 ** 15,)), (0, 0, 0, ()),
+# (option 0, the one every quick run with VERIF_SEED=0 uses, has EVERY kind of fee non-zero)
+FEE_OPTIONS = [(10 ** 15, 2 * 10 ** 15, 10 ** 15, (10 ** 15,)), (10 ** 15, 2 * 10 ** 15, 0, ()), (0, 0, 0, ()),
                (5 * 10 ** 16, 10 ** 17, 3 * 10 ** 16, (10 ** 16, 5 * 10 ** 15))]
 
 
